@@ -3,7 +3,7 @@ import TinyFlux.Model.IO
 /-!
 # Which I/O calls each API operation makes on a CSV database
 
-`opSteps s flush op` predicts the sequence of I/O calls (as `IO.Step`s over row *indices*) that the
+`opSteps s flush op` predicts the sequence of I/O calls (as `IO.Step`s whose rows are the stored points) that the
 operation `op` makes in state `s`, by following the same control flow as `Model/DB.lean` and composing
 the step lists of `Model/IO.lean` (`appendSteps`, `scanSteps`, `rewriteSteps`, `noopRewriteSteps`,
 `resetInTempSteps`, `resetSteps`) — the lists the crash / fault / side-effect theorems are about.
@@ -14,7 +14,8 @@ every generated history; that comparison is the tie between those theorems and `
 namespace TinyFlux.Model
 open TinyFlux.Spec TinyFlux.Model.IO
 
-abbrev RowId := Nat
+/-- the rows of the I/O model are the (decoded) stored points themselves -/
+abbrev RowId := Point
 
 /-- the read that `read_op` triggers when the index must be rebuilt -/
 def reindexSteps (s : State) : List (Step RowId) :=
@@ -39,7 +40,7 @@ def removeSteps (s0 : State) (flush : Bool) (q : Query) (m : Option String) : Li
       if items.isEmpty then noopRewriteSteps flush [] false
       else if items.length == s.index.numItems then resetInTempSteps flush [] false
       else
-        let rows := s.storage.zipIdx.map (fun pi => if items.contains pi.2 then none else some pi.2)
+        let rows := s.storage.zipIdx.map (fun pi => if items.contains pi.2 then none else some pi.1)
         if rows.all Option.isSome then noopRewriteSteps flush rows true
         else if rows.all Option.isNone then resetInTempSteps flush rows true
         else rewriteSteps flush rows false
@@ -47,24 +48,25 @@ def removeSteps (s0 : State) (flush : Bool) (q : Query) (m : Option String) : Li
     match s.storage.mapM (State.scanSel q m) with
     | .error _ => noopRewriteSteps flush [] false
     | .ok flags =>
-      let rows := flags.zipIdx.map (fun fi => if fi.1 then none else some fi.2)
+      let rows := (s.storage.zip flags).map (fun pf => if pf.2 then none else some pf.1)
       if rows.all Option.isSome then noopRewriteSteps flush rows true
       else if rows.all Option.isNone then resetInTempSteps flush rows true
       else rewriteSteps flush rows false)
 
-/-- the streaming prefix of an update that fails at the first selected row whose callable raises -/
-def updateStream (flush : Bool) (u : Upd) : List ((Point × Bool) × RowId) → List (Step RowId) × Bool
+/-- the streaming loop of an update: every row is read; a kept row is staged as it is, a selected row as
+    its updated version (or as it is when the update changes nothing); the first selected row whose
+    callable raises ends the stream (second component `false`) with nothing staged for it -/
+def updateStream (norm : Point → Point) (flush : Bool) (u : Upd) : List (Point × Bool) → List (Step RowId) × Bool
   | [] => ([.pRead], true)
-  | ((p, b), i) :: t =>
-    if b then
-      match upd u p with
-      | .error _ => ([.pRead], false)                 -- raised after reading row i: nothing staged for it
-      | .ok _ =>
-        let (r, ok) := updateStream flush u t
-        (.pRead :: stageRow flush i ++ r, ok)
-    else
-      let (r, ok) := updateStream flush u t
-      (.pRead :: stageRow flush i ++ r, ok)
+  | (p, true) :: t =>
+    match upd u p with
+    | .error _ => ([.pRead], false)
+    | .ok p' =>
+      let (r, ok) := updateStream norm flush u t
+      (.pRead :: stageRow flush (if p'.eqv p then p else norm p') ++ r, ok)
+  | (p, false) :: t =>
+    let (r, ok) := updateStream norm flush u t
+    (.pRead :: stageRow flush p ++ r, ok)
 
 def updateSteps (s0 : State) (flush : Bool) (all : Bool) (q : Query) (u : Upd) (m : Option String) :
     List (Step RowId) :=
@@ -76,7 +78,7 @@ def updateSteps (s0 : State) (flush : Bool) (all : Bool) (q : Query) (u : Upd) (
    | .error _ => [.tCreate, .tClose, .tUnlink]
    | .ok none => [.tCreate, .tClose, .tUnlink]
    | .ok (some rows) =>
-     let (stream, ok) := updateStream flush u rows.zipIdx
+     let (stream, ok) := updateStream s.cfg.norm flush u rows
      if !ok then [.tCreate, .pSeek0] ++ stream ++ [.tClose, .tUnlink]
      else
        match State.updateLoop s.cfg.norm u rows with
@@ -85,14 +87,15 @@ def updateSteps (s0 : State) (flush : Bool) (all : Bool) (q : Query) (u : Upd) (
          if c == 0 then [.tCreate, .pSeek0] ++ stream ++ [.tClose, .tUnlink]
          else [.tCreate, .pSeek0] ++ stream ++ swapSteps ++ (if s.cfg.autoIndex then scanSteps else []) ++ [.tClose])
 
-/-- the points an insert stores before it stops at a non-Point -/
-def insertedCount : List (Option Point) → Nat
-  | [] => 0
-  | none :: _ => 0
-  | some _ :: t => insertedCount t + 1
+/-- the rows an insert appends before it stops at a non-Point: what `insertLoop` stores -/
+def insertedRows (cfg : Cfg) (m : Option String) : List (Option Point) → List Point
+  | [] => []
+  | none :: _ => []
+  | some p :: t =>
+    cfg.norm (match effMeas m with | some name => { p with meas := name } | none => p) :: insertedRows cfg m t
 
 def opSteps (s : State) (flush : Bool) : Op → List (Step RowId)
-  | .insert pts _ => appendSteps flush (List.range (insertedCount pts))
+  | .insert pts m => appendSteps flush (insertedRows s.cfg m pts)
   | .search q m _ => reindexSteps s ++ (if foundScans s.readOp q m then scanSteps else [])
   | .get q m => reindexSteps s ++ (if foundScans s.readOp q m then scanSteps else [])
   | .select _ q m => reindexSteps s ++ (if foundScans s.readOp q m then scanSteps else [])
